@@ -28,6 +28,20 @@ func genC20(r *simrt.RNG, tier string, variant int) Plan {
 	p := Plan{Family: "healthy", Params: map[string]int64{}}
 	p.Servers = []ServerPlan{{Addr: "srv0:1", PingNs: -1}}
 	p.Clients = []ClientPlan{{Name: "A", Kind: Pick(r, []string{"ws", "ws", "http"}), Server: 0}}
+	if r.Bool(0.05) {
+		// many concurrent reader-carrying calls whose handlers wait for each other
+		// before any of them reads (an application-level barrier): no call may depend
+		// on another one's stream having been consumed first
+		p.Family = "barrier"
+		nb := Pick(r, []int{5, 17, 20, 33})
+		for i := 0; i < nb; i++ {
+			p.Ops = append(p.Ops, Op{Kind: "reader", Client: 0, Tok: i + 1, Size: Pick(r, []int{0, 1, 513, 4097}), N: Pick(r, []int{0, 2, 3, 5}),
+				Src: Pick(r, []int{0, 0, 1, 2, 3})})
+		}
+		p.Params["barrier"] = int64(nb)
+		p.Params["window"] = Pick(r, []int64{0, 16384})
+		return p
+	}
 	n := 1 + r.Intn(4)
 	big := false
 	for i := 0; i < n; i++ {
@@ -46,7 +60,7 @@ func genC20(r *simrt.RNG, tier string, variant int) Plan {
 		if pat == 1 && sz > 5000 {
 			pat = 2 // byte-at-a-time over megabytes is only slow
 		}
-		op := Op{Kind: "reader", Client: 0, Tok: i + 1, Size: sz, N: pat, Hold: r.Bool(0.3)}
+		op := Op{Kind: "reader", Client: 0, Tok: i + 1, Size: sz, N: pat, Hold: r.Bool(0.3), Src: Pick(r, []int{0, 0, 0, 1, 2, 3})}
 		if r.Bool(0.2) {
 			op.SleepNs = Pick(r, []int64{int64(2e9), int64(15e9)}) // a slow consumer
 		}
@@ -93,6 +107,10 @@ func (s *statusWriter) WriteHeader(c int) { s.code = c; s.ResponseWriter.WriteHe
 
 func runC20(e *Env, p *Plan) {
 	rec := &uploadRec{}
+	e.BarrierN = int(p.Param("barrier", 0))
+	if e.BarrierN > 0 {
+		e.Probe("handlers-wait-for-each-other")
+	}
 	e.N.Cfg.HTTPWindow = int(p.Param("window", 0))
 	rh, dec := httpio.ReaderParamDecoder()
 	oldDT := http.DefaultTransport
